@@ -88,6 +88,7 @@ type elemLval struct {
 	base lval
 	idx  Term
 	arr  bool
+	node ast.Expr // the indexed expression (for the parameter-aliasing check)
 }
 
 func (l elemLval) get(st *State) Term {
@@ -99,6 +100,9 @@ func (l elemLval) get(st *State) Term {
 }
 
 func (l elemLval) set(st *State, v Term) {
+	if l.node != nil {
+		l.e.noteSliceWrite(st, l.node, l.node)
+	}
 	b := l.base.get(st)
 	if l.arr {
 		l.base.set(st, Store(b, l.idx, v))
@@ -212,12 +216,12 @@ func (e *Exec) lvalOf(st *State, x ast.Expr) lval {
 			base := e.lvalOf(st, x.X)
 			i := e.eval(st, x.Index)
 			e.safe(st, "index", x, And(Ge(i, Int(0)), Lt(i, e.S.SlLen(base.get(st)))))
-			return e.typed(st, elemLval{e, base, i, false}, u.Elem())
+			return e.typed(st, elemLval{e, base, i, false, x.X}, u.Elem())
 		case *types.Array:
 			base := e.lvalOf(st, x.X)
 			i := e.eval(st, x.Index)
 			e.safe(st, "index", x, And(Ge(i, Int(0)), Lt(i, Int(u.Len()))))
-			return elemLval{e, base, i, true}
+			return elemLval{e, base, i, true, nil}
 		case *types.Pointer: // pointer to array
 			e.unsupported(x.Pos(), "index through pointer to array")
 		}
